@@ -178,7 +178,7 @@ def _overlay(db, chk, cp):
             i, ev = (H.name_id(x) for x in lp.target.elts)
             body = lp.body
             if len(body) == 1 and isinstance(body[0], ast.If) and not body[0].orelse and len(body[0].body) == 1:
-                okm = H.match(f"{i} in critical_path_graph.critical_path_events_set", body[0].test) is not None and H.match(f"{ev}['args']['critical'] = 1", body[0].body[0]) is not None
+                okm = H.match(f"{i} in critical_path_graph.critical_path_events_set", H.expand(f, body[0].test)) is not None and H.match(f"{ev}['args']['critical'] = 1", body[0].body[0]) is not None
     chk.ob(rule, "marker loop: event number i (position in traceEvents, from 0) is marked critical iff i is in the critical path's event set", okm, where, found=det,
            accepted="for ev_idx, event in enumerate(raw_events): if ev_idx in critical_path_graph.critical_path_events_set: event['args']['critical'] = 1",
            why="event ids are positions in the file's event list (C01): another start offset marks the neighbours")
@@ -197,21 +197,50 @@ def _overlay(db, chk, cp):
         inside = all(any(z is x for b in show_all_body for x in ast.walk(b)) for z in zero_filters)
         ok_src = ok_src and inside
         det2.append(f"zero-weight filter inside the show_all_edges branch: {inside}")
-    chk.ob(rule, "edges drawn when not showing all edges = exactly the critical path's edges (the zero-weight launch filter applies to the show-all view only)", ok_src if len(iff) == 1 else None, where,
+    crit_forms = ("($e for $e in critical_path_graph.critical_path_edges_set)", "critical_path_graph.critical_path_edges_set", "list(critical_path_graph.critical_path_edges_set)",
+                  "iter(critical_path_graph.critical_path_edges_set)", "tuple(critical_path_graph.critical_path_edges_set)")
+    edge_src_verdict = ok_src if len(iff) == 1 else None
+    if len(iff) != 1:
+        # the same choice inside a nested edge-source function:  if not show_all_edges: return <critical edges> ... (filters only after it)
+        for q_, g_ in cp.functions.items():
+            if q_.startswith("CriticalPathAnalysis.overlay_critical_path_analysis.") and any("critical_path_edges_set" in ast.unparse(r_) for r_ in ast.walk(g_) if isinstance(r_, ast.Return)):
+                first = next((st_ for st_ in g_.body if isinstance(st_, ast.If)), None)
+                core = first.test.operand if first is not None and isinstance(first.test, ast.UnaryOp) and isinstance(first.test.op, ast.Not) else (first.test if first is not None else None)
+                if first is not None and isinstance(core, ast.Name) and core.id == "show_all_edges":
+                    neg = core is not first.test
+                    crit_branch = first.body if neg else first.orelse
+                    rets = [r_ for st_ in crit_branch for r_ in ast.walk(st_) if isinstance(r_, ast.Return)]
+                    zero_filters = [n for n in ast.walk(g_) if isinstance(n, ast.Call) and "_is_zero_weight_launch_edge" in ast.unparse(n.func)]
+                    in_crit = any(any(z is x for st_ in crit_branch for x in ast.walk(st_)) for z in zero_filters)
+                    okr = len(rets) == 1 and any(H.match(p_, rets[0].value) is not None for p_ in crit_forms)
+                    det2 = [" ".join(ast.unparse(first).split())[:160], f"zero-weight filter on the critical branch: {in_crit}"]
+                    edge_src_verdict = (okr and not in_crit) if rets else None
+    chk.ob(rule, "edges drawn when not showing all edges = exactly the critical path's edges (the zero-weight launch filter applies to the show-all view only)", edge_src_verdict, where,
            found=det2, accepted="edges = (e for e in critical_path_graph.critical_path_edges_set)", why="filtering the critical edges leaves a critical launch edge of weight 0 without its flow pair")
     # flow pair per edge
-    lp = [n for n in walk_no_nested(f) if isinstance(n, ast.For) and isinstance(n.iter, ast.Name) and isinstance(n.target, ast.Name) and
-          any(isinstance(c, ast.Call) and H.name_id(c.func) == "get_flow_event" for c in ast.walk(n))]
+    lp = [n for n in walk_no_nested(f) if isinstance(n, ast.For) and any(isinstance(c, ast.Call) and H.name_id(c.func) == "get_flow_event" for c in ast.walk(n))]
     okp = False
     det3 = []
+    enum_fid = None
+    if len(lp) == 1 and isinstance(lp[0].target, ast.Tuple) and isinstance(lp[0].iter, ast.Call) and H.name_id(lp[0].iter.func) == "enumerate" and len(lp[0].target.elts) == 2 \
+            and all(isinstance(x, ast.Name) for x in lp[0].target.elts) and not (len(lp[0].iter.args) > 1 or lp[0].iter.keywords):
+        enum_fid, ev = lp[0].target.elts[0].id, lp[0].target.elts[1].id        # `for flow_id, e in enumerate(<edges>)`: the id advances once per edge by construction
+    elif len(lp) == 1 and isinstance(lp[0].target, ast.Name):
+        ev = lp[0].target.id
+    elif len(lp) == 1:
+        lp = []
     if len(lp) == 1:
         body = [s_ for s_ in lp[0].body if not isinstance(s_, ast.If)]
         det3 = [ast.unparse(s_)[:110] for s_ in body]
-        ev = H.name_id(lp[0].target)
         r = H.match_seq([f"$u, $v = ({ev}.begin, {ev}.end)", f"$s, $t = critical_path_graph.get_events_for_edge({ev})", "$se, $te = (raw_events[$s], raw_events[$t])".replace("raw_events", "$raw"),
                          f"$fl.append(get_flow_event($u, $se, {ev}, $fid, is_start=True))", f"$fl.append(get_flow_event($v, $te, {ev}, $fid, is_start=False))", "$fid += 1"], body)
         n_inc = H.self_updates(lp[0])
-        okp = r is not None and len(n_inc) == 1 and r["__mv_raw"] in al and al[r["__mv_raw"]][1] == ["traceEvents"]
+        if r is None and enum_fid is not None:
+            r = H.match_seq([f"$u, $v = ({ev}.begin, {ev}.end)", f"$s, $t = critical_path_graph.get_events_for_edge({ev})", "$se, $te = ($raw[$s], $raw[$t])",
+                             f"$fl.append(get_flow_event($u, $se, {ev}, {enum_fid}, is_start=True))", f"$fl.append(get_flow_event($v, $te, {ev}, {enum_fid}, is_start=False))"], body)
+            okp = r is not None and not n_inc and r["__mv_raw"] in al and al[r["__mv_raw"]][1] == ["traceEvents"]
+        else:
+            okp = r is not None and len(n_inc) == 1 and r["__mv_raw"] in al and al[r["__mv_raw"]][1] == ["traceEvents"]
     chk.ob(rule, "per drawn edge: one start and one end flow event with the same id, built from (begin node, event of begin node) and (end node, event of end node); id advanced once per edge", okp if len(lp) == 1 else None, where,
            found=det3, accepted="u, v = e.begin, e.end; ids = get_events_for_edge(e); append(get_flow_event(u, start_ev, ..., True)); append(get_flow_event(v, end_ev, ..., False)); flow_id += 1")
     gf = cp.func("CriticalPathAnalysis.overlay_critical_path_analysis.get_flow_event")
